@@ -23,7 +23,7 @@ type cExpr struct {
 }
 
 type cStmt struct {
-	k     string // skip ; := = op= ++ -- var call if for ret brk cont blk discard
+	k     string // skip ; := = op= ++ -- var call if for ret brk cont blk discard panic
 	x     string
 	op    string
 	ty    Kind
@@ -152,6 +152,8 @@ func (s *cStmt) src(b *strings.Builder, checked bool) {
 		fmt.Fprintf(b, "%s\n", s.e.src(checked))
 	case "discard":
 		fmt.Fprintf(b, "_ = %s\n", s.e.src(checked))
+	case "panic":
+		fmt.Fprintf(b, "panic(%s)\n", s.e.src(checked))
 	case "if":
 		fmt.Fprintf(b, "if %s {\n", s.e.src(checked))
 		s.kids[0].src(b, checked)
@@ -242,6 +244,9 @@ func (s *cStmt) tokens(b *[]string) {
 		s.e.tokens(b)
 	case "discard":
 		*b = append(*b, "discard")
+		s.e.tokens(b)
+	case "panic":
+		*b = append(*b, "panic")
 		s.e.tokens(b)
 	case "if":
 		*b = append(*b, "if")
@@ -641,7 +646,7 @@ func (g *cGen) newName(ty Kind) string {
 
 func (g *cGen) stmt() *cStmt {
 	g.budget--
-	w := []int{12, 10, 6, 4, 4, 8, 6, 3, 3, 3, 3}
+	w := []int{12, 10, 6, 4, 4, 8, 6, 3, 3, 3, 3, 2}
 	if g.depth >= 3 {
 		w[5], w[6], w[9] = 2, 1, 0
 	}
@@ -738,6 +743,9 @@ func (g *cGen) stmt() *cStmt {
 	case 9: // nested block
 		g.f("stmt:block")
 		return &cStmt{k: "blk", kids: []*cStmt{g.block(g.r.Range(1, 3))}}
+	case 11: // explicit panic under a condition: panic(e) evaluates e, then THROW
+		g.f("stmt:panic")
+		return &cStmt{k: "if", e: g.genBool(2), kids: []*cStmt{seq([]*cStmt{{k: "panic", e: g.genInt(2)}})}, elseK: "none"}
 	default: // conditional return
 		if g.cur == nil {
 			return g.stmtDefault()
